@@ -5,6 +5,7 @@
    valid_surface_b of C01), the volume change caused by the refinement of the daughters: see DESIGN.md. *)
 From Coq Require Import Reals Lra NArith Arith Bool List.
 From SC Require Import Num Vec3 VecR Geometry Divider Population PopulationSpec PopulationProofs DividerProofs.
+From SC Require Import Divider_gen.
 Import ListNotations.
 Local Open Scope R_scope.
 
@@ -80,3 +81,14 @@ Print Assumptions interface_points_return_to_their_plane.
 Theorem minus_z_axis_is_degenerate : let M := rot_to_z NumR (mkv 0 0 (-1)) in mdot NumR M (mkv 0 0 (-1)) <> zaxis NumR.
 Proof. exact minus_z_degenerate. Qed.
 Print Assumptions minus_z_axis_is_degenerate.
+
+(* THE TIE TO THE SOURCE: Divider_gen.v is regenerated from src/triangulation_modules/cell_divider.cpp on every run; the
+   intersection of an edge with the division plane (with its colinear and out-of-range cases) and the side of a face with
+   respect to the plane are the model's, by reflexivity, for every number type. *)
+Theorem divider_arithmetic_is_what_the_source_says :
+  (divider_translation_ok = true :> bool) /\
+  (forall (T : Type) (N : Num T) (e1 e2 p n p1 p2 p3 : vec3 T),
+     edge_plane_gen N e1 e2 p n = edge_plane N e1 e2 p n /\
+     face_side_gen N p1 p2 p3 p n = face_side N p1 p2 p3 p n).
+Proof. split; [reflexivity|]. intros. split; reflexivity. Qed.
+Print Assumptions divider_arithmetic_is_what_the_source_says.
